@@ -79,7 +79,7 @@ PROPS = {
                U("c08_advance_order", ["C02.V.advance.reports_bound (the bound is computed with the caller's iteration number >= 1, hence a number)"])],
         kani_functions=["src/solve/data.rs :: fn avg_strat", "src/solve/data.rs :: impl RegretParams / fn regret_match", "src/solve/data.rs :: impl RegretInfoset / fn new"],
         trusted_base=[FLOAT_IDEAL, "interval model of f64::exp"],
-        not_decided=["whole-run totality on arbitrary trees, hangs, deadlock", "num_threads == 0 (machine parallelism): the closure passed to or_else is opaque"],
+        not_decided=["whole-run totality on arbitrary trees, hangs, deadlock", "what std::thread::available_parallelism answers (any value or an error: the dispatch is decided for each answer)"],
     ),
     "C06": dict(
         level="proof",
